@@ -154,7 +154,7 @@ __CPROVER_ensures(GNC == OLD(GNC) + 1 && GOP(GNC - 1) == OP_JMP && NBP == OLD(NB
 __CPROVER_ensures(model_last_map < NMARK && MARKS[model_last_map].first._id == NAME_OF(c) &&
                   MARKS[model_last_map].second == GPAR(GNC - 1, PI_jmp_offset) && GPAR(GNC - 1, PI_jmp_offset) >= 0 &&
                   (unsigned long)GPAR(GNC - 1, PI_jmp_offset) < NLAB) /*@C01,C03*/
-__CPROVER_ensures(NLAB <= OLD(NLAB) + 1 && NMARK <= OLD(NMARK) + 1 && (NLAB == OLD(NLAB)) == (NMARK == OLD(NMARK))) /*@C01*/;
+__CPROVER_ensures(NLAB <= OLD(NLAB) + 1 && NMARK <= OLD(NMARK) + 1 && (NLAB == OLD(NLAB)) == (NMARK == OLD(NMARK))) /*@C01,C04*/;
 
 void c_dispatchMark(void *p, void *c)
 REQ_GS(p)
